@@ -228,7 +228,8 @@ func MonC01(c *MonCtx) {
 		if kept > 1 {
 			c.Violate("C01b", "C01b/duplicates: more than one non-terminating daemon pod left on a node after a full sync", fmt.Sprintf("node %s role %s kept %d", n, v.Role, kept))
 		}
-		if kept == 0 && best.DeletionTimestamp == nil {
+		if kept == 0 && best.DeletionTimestamp == nil && PodHash(best) == v.RS.Spec.TemplateGeneration {
+			// (an outdated keeper may legitimately be deleted in the same sync in order to update it)
 			c.Violate("C01b", "C01b/duplicates: every duplicate deleted, none kept", fmt.Sprintf("node %s role %s", n, v.Role))
 		}
 	}
